@@ -7,7 +7,7 @@ observed through public properties, and the expected result of a read is simply 
 observation of the object that was written last.
 """
 from __future__ import annotations
-import contextlib, importlib, io, math, os
+import contextlib, importlib, io, math, os, warnings
 
 import numpy
 
@@ -48,7 +48,7 @@ CLASSES = {
     "DenseSquare2TaxaTraitMatrix": _c("pybrops.core.mat", "nnt", opt=TAXA + TRAIT, pandas="long2"),
     "DenseScaledSquareTaxaTraitMatrix": _c("pybrops.core.mat", "nnt", opt=TAXA + TRAIT, scaled=True, pandas="long"),
     "DenseSquareTaxaSquareTraitMatrix": _c("pybrops.core.mat", "nntt", opt=TAXA + TRAIT),
-    "DenseGeneticMappableMatrix": _c("pybrops.popgen.gmap", "nm", opt=VRNT),
+    "DenseGeneticMappableMatrix": _c("pybrops.popgen.gmap", "mn", opt=VRNT),
     # ---- genotypes
     "DenseGenotypeMatrix": _c("pybrops.popgen.gmat", "nm", "int8", opt=TAXA + VRNT, ploidy=True),
     "DensePhasedGenotypeMatrix": _c("pybrops.popgen.gmat", "2nm", "int8", opt=TAXA + VRNT),
@@ -164,23 +164,45 @@ def _profiles(name, tier):
     ASCII vs non-ASCII labels.  tier: 'quick' (4 profiles) ⊂ 'thorough' (5) ⊂ 'wide' (6; used for the
     single-step forms, copies and depth-2 histories)."""
     spec = CLASSES[name]
+    post = tier in ("wide", "post")      # objects in POST-OPERATION states (after in-place edits of a built object)
     if spec["kind"] == "gmod":
-        return [dict(id="rich", t=2, misc=2, trait=True, name=True, hyper="mixed", uni=True, salt=0),
-                dict(id="hyper2", t=2, misc=2, trait=True, name=True, hyper="other", uni=False, salt=1),
-                dict(id="plain", t=2, misc=0, trait=False, name=False, hyper=None, uni=False, salt=2),
-                dict(id="one-trait", t=1, misc=1, trait=True, name=True, hyper="num", uni=False, salt=3),
-                dict(id="named-only", t=1, misc=0, trait=False, name=True, hyper=None, uni=True, salt=4)]
+        out = [dict(id="rich", t=2, misc=2, trait=True, name=True, hyper="mixed", uni=True, salt=0),
+               dict(id="hyper2", t=2, misc=2, trait=True, name=True, hyper="other", uni=False, salt=1),
+               dict(id="plain", t=2, misc=0, trait=False, name=False, hyper=None, uni=False, salt=2),
+               dict(id="one-trait", t=1, misc=1, trait=True, name=True, hyper="num", uni=False, salt=3),
+               dict(id="named-only", t=1, misc=0, trait=False, name=True, hyper=None, uni=True, salt=4)]
+        po = [dict(id="post-coef-edit", t=2, misc=2, trait=True, name=True, hyper="mixed", uni=False, salt=5,
+                   post=("edit-coefficients",)),
+              dict(id="post-reassign", t=1, misc=0, trait=False, name=False, hyper=None, uni=False, salt=6,
+                   post=("reassign-fields",))]
+        return po if tier == "post" else out + (po if post else [])
     if spec["kind"] == "pt":
         if name == "TruePhenotyping":
-            return [dict(id="t2", t=2, salt=0), dict(id="t1", t=1, salt=1)]
-        return [dict(id="e2r2", t=2, nenv=2, nrep="arr", var="arr", salt=0),
-                dict(id="e3r1", t=2, nenv=3, nrep="int", var="scalar", salt=1),
-                dict(id="e1", t=1, nenv=1, nrep="int", var="arr", salt=2),
-                dict(id="e2-noenv", t=2, nenv=2, nrep="arr", var="partial", salt=3)]
+            return [] if tier == "post" else [dict(id="t2", t=2, salt=0), dict(id="t1", t=1, salt=1)]
+        out = [dict(id="e2r2", t=2, nenv=2, nrep="arr", var="arr", salt=0),
+               dict(id="e3r1", t=2, nenv=3, nrep="int", var="scalar", salt=1),
+               dict(id="e1", t=1, nenv=1, nrep="int", var="arr", salt=2),
+               dict(id="e2-noenv", t=2, nenv=2, nrep="arr", var="partial", salt=3)]
+        po = [dict(id="post-param-edit", t=2, nenv=2, nrep="arr", var="arr", salt=4, post=("edit-protocol",))]
+        return po if tier == "post" else out + (po if post else [])
     if spec["kind"] == "gmap":
-        return [dict(id="two-chr", layout=(2, 2), sorted=False, uni=True, names=True, salt=0),
-                dict(id="one-chr", layout=(3,), sorted=True, uni=False, names=False, salt=1),
-                dict(id="three-chr", layout=(2, 1, 1), sorted=False, uni=False, names=True, salt=2)]
+        out = [dict(id="two-chr", layout=(2, 2), sorted=False, uni=True, names=True, salt=0),
+               dict(id="one-chr", layout=(3,), sorted=True, uni=False, names=False, salt=1),
+               dict(id="three-chr", layout=(2, 1, 1), sorted=False, uni=False, names=True, salt=2)]
+        po = [  # spline_kind / fill value other than the defaults (representable in a table through the reader's options)
+              dict(id="kind-nearest", layout=(3, 2), sorted=True, uni=False, names=True, salt=3, kind="nearest"),
+              dict(id="fill-array", layout=(3,), sorted=True, uni=False, names=False, salt=4, fill="array"),
+              dict(id="no-spline-ungrouped", layout=(2, 2), sorted=False, uni=False, names=True, salt=5,
+                   auto_group=False, auto_build_spline=False),
+              # states whose stored spline is NOT what a fresh build gives (documented workflow: edit, rebuild later):
+              # only copies can reproduce these, a table cannot carry the interpolators
+              dict(id="post-remove-stale-spline", layout=(3, 2), sorted=True, uni=False, names=True, salt=6,
+                   post=("map-remove-first",), table=False),
+              dict(id="post-select-drops-chr", layout=(2, 1, 1), sorted=True, uni=False, names=True, salt=7,
+                   post=("map-select-first-two",), table=False),
+              dict(id="user-spline", layout=(3, 2), sorted=True, uni=False, names=False, salt=8,
+                   post=("map-foreign-spline",), table=False)]
+        return po if tier == "post" else out + (po if post else [])
     opt = spec["opt"]
     out = []
     if not opt:
@@ -189,7 +211,14 @@ def _profiles(name, tier):
                dict(id="small", n=2, m=1, t=1, present=(), grouped=False, uni=False, salt=2)]
         if spec["dtype"] == "float64":
             out.append(dict(id="int64", n=3, m=2, t=2, present=(), grouped=False, uni=False, salt=3, dtype="int64"))
-        return out
+        po = [dict(id="post-inplace-arith", n=3, m=2, t=2, present=(), grouped=False, uni=False, salt=4,
+                   post=("inplace-arith",))]
+        return po if tier == "post" else out + (po if post else [])
+    po = [dict(id="post-ungroup", n=3, m=4, t=2, present=opt, grouped=True, uni=False, salt=6, post=("ungroup",)),
+          dict(id="post-sort", n=3, m=4, t=2, present=opt, grouped=False, uni=True, salt=7, post=("sort",)),
+          dict(id="post-remove", n=3, m=4, t=2, present=opt, grouped=True, uni=False, salt=8, post=("remove-first",))]
+    if tier == "post":
+        return po
     half = opt[: (len(opt) + 1) // 2] if len(opt) > 2 else opt[:1]
     out.append(dict(id="rich", n=3, m=4, t=2, present=opt, grouped=True, uni=True, salt=0))
     out.append(dict(id="labels", n=3, m=4, t=2, present=opt, grouped=False, uni=False, salt=1))
@@ -202,11 +231,96 @@ def _profiles(name, tier):
         rest = tuple(f for f in opt if f not in half)
         if rest:
             out.append(dict(id="partial2", n=3, m=4, t=2, present=rest, grouped=False, uni=False, salt=5))
+        out += po
+    return out
+
+
+class PostOpUnavailable(Exception):
+    """the in-place operation that should bring an object into a post-operation state raised: the profile is
+    skipped (whether that operation works is the business of other properties)"""
+
+
+def build_pool(name, tier, seed):
+    """[(profile, object)] for every profile of the tier whose object can be built"""
+    out = []
+    for pr in profiles(name, tier):
+        try:
+            out.append((pr, build(name, pr, seed)))
+        except PostOpUnavailable:
+            continue
     return out
 
 
 def build(name, prof, seed):
-    """Construct one object of class `name` for profile `prof` through the public constructor."""
+    """Construct one object of class `name` for profile `prof` through the public constructor, then apply the
+    profile's in-place post-operations (if any)."""
+    obj = _build(name, prof, seed)
+    ops = prof.get("post", ())
+    if ops:
+        try:
+            with quiet():
+                for op in ops:
+                    _post_op(name, obj, op, seed)
+        except Exception as e:
+            raise PostOpUnavailable(f"{name} {prof['id']}: {type(e).__name__}: {e}")
+    return obj
+
+
+def _post_op(name, obj, op, seed):
+    if op == "ungroup":
+        for m in ("ungroup_taxa", "ungroup_vrnt"):
+            if hasattr(obj, m):
+                getattr(obj, m)()
+    elif op == "sort":
+        if hasattr(obj, "sort_taxa") and obj.taxa is not None:
+            obj.sort_taxa()
+        if hasattr(obj, "sort_vrnt") and obj.vrnt_chrgrp is not None:
+            obj.sort_vrnt()
+    elif op == "remove-first":
+        done = False
+        if hasattr(obj, "remove_taxa"):
+            obj.remove_taxa([0])
+            done = True
+        if hasattr(obj, "remove_vrnt"):
+            obj.remove_vrnt([0])
+            done = True
+        if not done:
+            raise RuntimeError("no in-place remove")
+    elif op == "inplace-arith":
+        m = obj.mat
+        m[...] = m * 2 if m.dtype.kind != "b" else ~m
+        flat = m.reshape(-1)
+        flat[0] = flat[-1]
+    elif op == "edit-coefficients":
+        obj.u_a[0, 0] = 99.5
+        obj.beta[-1, -1] = -0.015625
+        obj.hyperparams["added-later"] = 3
+        obj.hyperparams.pop("niter", None)
+        obj.model_name = obj.model_name + " v2"
+    elif op == "reassign-fields":
+        t = obj.ntrait
+        obj.u_a = numpy.arange(2 * t, dtype="float64").reshape(2, t) / 7.0
+        obj.u_misc = numpy.full((1, t), 0.75)
+        obj.trait = numpy.array(["späť%d" % i for i in range(t)], dtype=object)
+        obj.hyperparams = {"k": 5.5}
+        obj.model_name = "reassigned"
+    elif op == "edit-protocol":
+        obj.nrep = 3
+        obj.var_err = numpy.array([0.3, 4.0])[: len(obj.var_err)]
+        obj.var_env = 0.0625
+    elif op == "map-remove-first":
+        obj.remove([0])                          # documented: the spline is not rebuilt
+    elif op == "map-select-first-two":
+        obj.select([0, 1])                       # drops whole chromosomes; stored spline still has their keys
+    elif op == "map-foreign-spline":
+        other = _build(name, dict(id="x", layout=(3, 2), sorted=True, uni=False, names=False, salt=11), seed + 3)
+        obj.spline = dict(other.spline)
+        obj.spline_kind = "linear"
+    else:
+        raise KeyError(op)
+
+
+def _build(name, prof, seed):
     spec = CLASSES[name]
     cls = get_class(name)
     a = alphabet(seed)
@@ -330,7 +444,7 @@ def _build_gmap(name, cls, prof, seed):
     pos, gen = [], []
     for ci, c in enumerate(lay):
         p = (numpy.arange(c, dtype="int64") + 1) * (1000 + 7 * seed) + 13 * ci
-        g = (numpy.arange(c, dtype="float64") + ci * 0.03125) * (0.35 + 0.01 * seed) + 0.0078125
+        g = (numpy.arange(c, dtype="float64") + ci * 0.03125) * (0.35 + 0.01 * seed + 0.001 * prof["salt"]) + 0.0078125
         pos.append(p)
         gen.append(g)
     pos = numpy.concatenate(pos)
@@ -340,6 +454,13 @@ def _build_gmap(name, cls, prof, seed):
         perm = numpy.arange(m)[::-1].copy()
         chr_, pos, gen = chr_[perm], pos[perm], gen[perm]
     kw = dict(vrnt_chrgrp=chr_, vrnt_phypos=pos, vrnt_genpos=gen)
+    if prof.get("kind"):
+        kw["spline_kind"] = prof["kind"]
+    if prof.get("fill") == "array":
+        kw["spline_fill_value"] = numpy.array(0.03125)
+    for f in ("auto_group", "auto_build_spline"):
+        if f in prof:
+            kw[f] = prof[f]
     if name == "ExtendedGeneticMap":
         kw["vrnt_stop"] = pos + 1
         if prof["names"]:
@@ -389,15 +510,54 @@ def observe(obj, depth=0):
             continue
         out[p] = _obs_value(v, depth)
     if hasattr(obj, "interp_genpos") and hasattr(obj, "vrnt_phypos") and hasattr(obj, "has_spline"):
-        try:
-            if obj.has_spline():
-                chr_ = numpy.concatenate([obj.vrnt_chrgrp, obj.vrnt_chrgrp])
-                pos = numpy.concatenate([obj.vrnt_phypos, obj.vrnt_phypos + 5])
-                out["~interp_genpos"] = _obs_value(obj.interp_genpos(chr_, pos), depth)
-            else:
-                out["~interp_genpos"] = None
-        except Exception as e:
-            out["~interp_genpos"] = ("raises", type(e).__name__)
+        out.update(_observe_map_behaviour(obj, depth))
+    return out
+
+
+def _observe_map_behaviour(obj, depth):
+    """What the map DOES: interpolation at its own positions, at midpoints and at fixed probe positions on every
+    chromosome it or its spline knows (inside and outside the data range), the spline's chromosome keys and each
+    interpolator's own knots."""
+    out = {}
+    try:
+        has = bool(obj.has_spline())
+    except Exception as e:
+        return {"~has_spline": ("raises", type(e).__name__)}
+    out["~has_spline"] = has
+    sp = obj.spline
+    out["~spline_keys"] = None if sp is None else tuple(sorted(int(k) for k in sp))
+    if sp is not None:
+        knots = {}
+        for k in sorted(sp, key=int):
+            f = sp[k]
+            knots[str(int(k))] = (_obs_value(numpy.asarray(getattr(f, "x", ())), depth), _obs_value(numpy.asarray(getattr(f, "y", ())), depth),
+                                  repr(getattr(f, "fill_value", None)), getattr(f, "_kind", None))
+        out["~spline_knots"] = knots
+    if not has:
+        return out
+    chrs = sorted({int(c) for c in obj.vrnt_chrgrp.tolist()} | {int(k) for k in (sp or {})})
+    own_c, own_p = obj.vrnt_chrgrp.astype("int64"), obj.vrnt_phypos.astype("int64")
+    probes = {"own": (own_c, own_p)}
+    mc_, mp_ = [], []
+    for c in chrs:
+        ps = sorted(own_p[own_c == c].tolist())
+        for a_, b_ in zip(ps, ps[1:]):
+            mc_.append(c)
+            mp_.append((a_ + b_) // 2)
+    probes["mid"] = (numpy.array(mc_, dtype="int64"), numpy.array(mp_, dtype="int64"))
+    grid = [1, 1500, 2600, 10 ** 7]
+    probes["grid"] = (numpy.repeat(numpy.array(chrs + [987654], dtype="int64"), len(grid)),
+                      numpy.tile(numpy.array(grid, dtype="int64"), len(chrs) + 1))
+    for key, (c, p_) in probes.items():
+        vals = []
+        for ci, pi in zip(c.tolist(), p_.tolist()):       # one query at a time: an out-of-range error stays local
+            try:
+                with warnings.catch_warnings():
+                    warnings.simplefilter("ignore")
+                    vals.append(float(obj.interp_genpos(numpy.array([ci]), numpy.array([pi]))[0]))
+            except Exception as e:
+                vals.append("raises " + type(e).__name__)
+        out["~interp_genpos:" + key] = tuple(vals)
     return out
 
 
@@ -567,6 +727,13 @@ LONG = {
 DEFAULTS_MATCH = {"v2", "v3", "v4", "c2", "c3", "c4", "long", "bv", "cmat", "gmod", "gmap"}
 
 
+def _colpos(obj, w, wanted):
+    """integer positions of the columns named `wanted` in the frame the writer produces with options `w`"""
+    with quiet():
+        cols = [str(c) for c in obj.to_pandas(**{k: v for k, v in w.items() if k != "header"}).columns]
+    return [cols.index(str(c)) for c in wanted]
+
+
 def table_cases(name, obj, tier):
     """Matching (write options, read options) pairs that are valid for `obj` (decided from documented
     preconditions: label columns are only requested for labels the object has)."""
@@ -598,6 +765,8 @@ def table_cases(name, obj, tier):
         cases.append(("default-names-explicit", ) + mk("x", dflt)[1:])
         cases.append(("custom-names", ) + mk("x", lambda p: "ç–" + p[:-4].upper())[1:])
         cases.append(("read-by-index", ) + mk("x", dflt, index_read=True)[1:])
+        _, w, r, c_ = mk("x", dflt, index_read=True)
+        cases.append(("csv:headerless-by-index", dict(w, header=False), dict(r, header=None), c_))
         return cases
     if fam == "long":
         nax = len(obj.square_taxa_axes)
@@ -610,9 +779,14 @@ def table_cases(name, obj, tier):
                       dict(taxa_colnames=tn, taxa_grp_colnames=gn, trait_colnames="ŧr", value_colname="val", ntaxaaxes=nax), "long"))
         if grp:
             cases.append(("grp-false", dict(taxa_grp_colnames=False), dict(taxa_grp_colnames=False, ntaxaaxes=nax), "long-nogrp"))
-            cases.append(("read-by-index", dict(),
-                          dict(taxa_colnames=list(range(nax)), taxa_grp_colnames=list(range(nax, 2 * nax)),
-                               trait_colnames="trait_0", value_colname=2 * nax + 1, ntaxaaxes=nax), "long"))
+        # every column given by integer position (the trait column too: documented as `str, Integral`)
+        ng = nax if grp else 0
+        r_ix = dict(taxa_colnames=list(range(nax)), taxa_grp_colnames=(list(range(nax, 2 * nax)) if grp else None),
+                    trait_colnames="trait_0", value_colname=nax + ng + 1, ntaxaaxes=nax)
+        cases.append(("read-by-index", dict(taxa_grp_colnames=g_w), r_ix, "long"))
+        cases.append(("read-by-index-trait-too", dict(taxa_grp_colnames=g_w), dict(r_ix, trait_colnames=nax + ng), "long"))
+        cases.append(("csv:headerless-by-index", dict(taxa_grp_colnames=g_w, header=False),
+                      dict(r_ix, trait_colnames=nax + ng, header=None), "long"))
         return cases
     if fam == "bv":
         tx = "taxa" if has("taxa") else None
@@ -626,8 +800,12 @@ def table_cases(name, obj, tier):
         names = ["col%d–é" % i for i in range(t)]
         cases.append(("explicit-trait-cols", dict(base_w, trait_cols=names, unscale=True), dict(base_w, trait_cols=names), "bv-traitnames"))
         cases.append(("numeric-trait-cols", dict(base_w, trait_cols=None, unscale=True), dict(base_w), "bv-traitnum"))
-        if has("taxa") and has("taxa_grp"):
-            cases.append(("read-by-index", dict(base_w, unscale=True), dict(taxa_col=0, taxa_grp_col=1), "bv"))
+        nlab = (1 if tx else 0) + (1 if tg else 0)
+        r_ix = dict(taxa_col=(0 if tx else None), taxa_grp_col=((1 if tx else 0) if tg else None))
+        cases.append(("read-by-index", dict(base_w, unscale=True), dict(r_ix), "bv"))
+        cases.append(("read-by-index-traits-too", dict(base_w, unscale=True), dict(r_ix, trait_cols=list(range(nlab, nlab + t))), "bv"))
+        cases.append(("csv:headerless-by-index", dict(base_w, unscale=True, header=False),
+                      dict(r_ix, trait_cols=list(range(nlab, nlab + t)), header=None), "bv-traitnum"))
         cases.append(("scaled-with-location-scale", dict(base_w, unscale=False),
                       dict(base_w, location=obj.location.copy(), scale=obj.scale.copy()), "bv-param"))
         return cases
@@ -649,30 +827,46 @@ def table_cases(name, obj, tier):
         names = ["col%d–é" % i for i in range(obj.ntrait)]
         cases.append(("explicit-trait-cols", dict(trait_cols=names), dict(common, trait_cols=names), "gmod-traitnames"))
         cases.append(("numeric-trait-cols", dict(trait_cols=None), dict(common), "gmod-traitnum"))
+        ix = list(range(obj.ntrait))
+        cases.append(("trait-cols-by-index", dict(), dict(common, trait_cols=ix), "gmod-traitnum"))
+        if all(getattr(obj, f).shape[0] > 0 for f in ("beta", "u_misc", "u_a")):      # an empty header-less file has no columns
+            cases.append(("csv:headerless-by-index", dict(header=False), dict(common, trait_cols=ix, header=None), "gmod-traitnum"))
         return cases
     if fam == "gmap":
         ext = name == "ExtendedGeneticMap"
+        opt = has("vrnt_name") if ext else False
+        common = {}
+        if not obj.is_grouped():
+            common.update(auto_group=False)
+        if not obj.has_spline():
+            common.update(auto_build_spline=False)
+        if obj.spline_kind not in (None, "linear"):
+            common.update(spline_kind=obj.spline_kind)
+        if isinstance(obj.spline_fill_value, numpy.ndarray):
+            common.update(spline_fill_value=obj.spline_fill_value.copy())
         for units in ("cM", "M", "centiMorgans", "Morgans"):
             w = dict(vrnt_genpos_units=units)
-            r = dict(vrnt_genpos_units=units)
-            if ext and has("vrnt_name"):
+            r = dict(common, vrnt_genpos_units=units)
+            if opt:
                 r.update(vrnt_name_col="name", vrnt_fncode_col="fncode")
-            if not obj.is_grouped():
-                r.update(auto_group=False)
-            if not obj.has_spline():
-                r.update(auto_build_spline=False)
             cases.append(("units-" + units, w, r, "gmap"))
         w = dict(vrnt_chrgrp_col="ĉhr", vrnt_phypos_col="p", vrnt_genpos_col="Morgan", vrnt_genpos_units="M")
-        r = dict(w)
+        r = dict(common, **w)
         if ext:
             w.update(vrnt_stop_col="end", vrnt_name_col="id", vrnt_fncode_col="fc")
             r.update(vrnt_stop_col="end")
-            if has("vrnt_name"):
+            if opt:
                 r.update(vrnt_name_col="id", vrnt_fncode_col="fc")
-        if not obj.is_grouped():
-            r.update(auto_group=False)
-        if not obj.has_spline():
-            r.update(auto_build_spline=False)
         cases.append(("custom-names", w, r, "gmap"))
+        # every column (the optional ones too) given by integer position; header-less CSV
+        for cid, units, extra_w, extra_r in (("read-by-index", "cM", {}, {}), ("csv:headerless-by-index", "M", dict(header=False), dict(header=None))):
+            w = dict(vrnt_genpos_units=units)
+            keys = ["vrnt_chrgrp_col", "vrnt_phypos_col"] + (["vrnt_stop_col"] if ext else []) + ["vrnt_genpos_col"]
+            names = ["chr", "pos"] + (["stop"] if ext else []) + ["cM"]
+            if opt:
+                keys += ["vrnt_name_col", "vrnt_fncode_col"]
+                names += ["name", "fncode"]
+            r = dict(common, vrnt_genpos_units=units, **dict(zip(keys, _colpos(obj, w, names))))
+            cases.append((cid, dict(w, **extra_w), dict(r, **extra_r), "gmap"))
         return cases
     return cases
